@@ -229,3 +229,20 @@ package mocks
 //@   ensures[other_topics_kept] forall t string :: !haskey(partitions, t) ==> haskey(pc.overridePartitions, t) == old(haskey(pc.overridePartitions, t)) && pc.overridePartitions[t] == old(pc.overridePartitions[t])
 //@ func (pc *TopicConfig) SetDefaultPartitions(n) props C20
 //@   ensures[default_set] pc.defaultPartitions == n
+
+// ---------------------------------------------------------------------------------------------
+// Building the script (C20): every Expect* call of the mock producers appends exactly one expectation at the END of
+// the script (so the i-th call scripts the i-th message), with the given checker and the scripted outcome (no error
+// for success, the given error otherwise); the expectations scripted before are left in place.
+//@ func (mp *AsyncProducer) ExpectInputWithMessageCheckerFunctionAndSucceed(cf) props C20
+//@   ensures[appended_at_the_end] len(mp.expectations) == acq(len(mp.expectations)) + 1 && forall k :: 0 <= k && k < acq(len(mp.expectations)) ==> mp.expectations[k] == acq(mp.expectations[k])
+//@   ensures[scripted_success] mp.expectations[len(mp.expectations) - 1] != nil && mp.expectations[len(mp.expectations) - 1].Result == nil
+//@ func (mp *AsyncProducer) ExpectInputWithMessageCheckerFunctionAndFail(cf, err) props C20
+//@   ensures[appended_at_the_end] len(mp.expectations) == acq(len(mp.expectations)) + 1 && forall k :: 0 <= k && k < acq(len(mp.expectations)) ==> mp.expectations[k] == acq(mp.expectations[k])
+//@   ensures[scripted_error] mp.expectations[len(mp.expectations) - 1] != nil && mp.expectations[len(mp.expectations) - 1].Result == err
+//@ func (sp *SyncProducer) ExpectSendMessageWithMessageCheckerFunctionAndSucceed(cf) props C20
+//@   ensures[appended_at_the_end] len(sp.expectations) == acq(len(sp.expectations)) + 1 && forall k :: 0 <= k && k < acq(len(sp.expectations)) ==> sp.expectations[k] == acq(sp.expectations[k])
+//@   ensures[scripted_success] sp.expectations[len(sp.expectations) - 1] != nil && sp.expectations[len(sp.expectations) - 1].Result == nil
+//@ func (sp *SyncProducer) ExpectSendMessageWithMessageCheckerFunctionAndFail(cf, err) props C20
+//@   ensures[appended_at_the_end] len(sp.expectations) == acq(len(sp.expectations)) + 1 && forall k :: 0 <= k && k < acq(len(sp.expectations)) ==> sp.expectations[k] == acq(sp.expectations[k])
+//@   ensures[scripted_error] sp.expectations[len(sp.expectations) - 1] != nil && sp.expectations[len(sp.expectations) - 1].Result == err
